@@ -251,7 +251,7 @@ func TestVerif_C14(t *testing.T) {
 			}
 			base := []string{"x", "xa", "xab", "x-a", "content-type", "content-typ", "content-type2", "authorization", "z",
 				strings.Repeat("k", 1+rng.IntN(40)), "x-" + strings.Repeat("q", rng.IntN(38)), "a", "b", "ab", "ba",
-				"x-m-aa", "x-m-ab", "x-m-b", "x-m-ba", "x-m-c", "x-m-ca", "x-m-d", "x-m-e", "x-m-f", "x-m-g", "x-m-h"}
+				"accept", "accept-language", "content-language", "range", "x-m-aa", "x-m-ab", "x-m-b", "x-m-ba", "x-m-c", "x-m-ca", "x-m-d", "x-m-e", "x-m-f", "x-m-g", "x-m-h"}
 			seen := map[string]bool{}
 			var names []string
 			for len(names) < nNames {
@@ -385,7 +385,8 @@ func TestVerif_C14(t *testing.T) {
 	// followed by lines that are fine or carry a violation - all through the public API
 	r.Parallel(pick(r, 8, 64), func(l *Local) {
 		rng := l.Rng
-		pool := []string{"x", "xa", "xab", "x-a", "content-type", "content-typ", "x-listed-1", "x-listed-2", "authorization", "z", "a", "b", "ab"}
+		pool := []string{"x", "xa", "xab", "x-a", "content-type", "content-typ", "x-listed-1", "x-listed-2", "authorization", "z", "a", "b", "ab",
+			"accept", "accept-language", "content-language", "range", "if-none-match"}
 		for i := 0; i < pick(r, 400, 3000); i++ {
 			n := 1 + rng.IntN(4)
 			seen := map[string]bool{}
